@@ -657,7 +657,7 @@ def o_r16_history(case):
     same array in two roles; the arguments overwritten right after the call; an equal-content copy at the end"""
     entry = case['entry']
     fill, call, check, pair = _entries()[entry]
-    bufs, kept = None, []
+    bufs, kept, lst = None, [], None
     r = cont = extra = args_same = None
     for k, st in enumerate(case['steps']):
         extra = st.get('extra') or {}
@@ -667,13 +667,19 @@ def o_r16_history(case):
             cont[pair[1]] = cont[pair[0]]
         if bufs is None:
             bufs = [np.zeros(np.shape(c), dtype=np.asarray(c).dtype) for c in cont]
+            lst = [0.0] * len(cont[0]) if case.get('container') == 'list' else None
         for b, c in zip(bufs, cont):
             b[...] = c
         args = list(bufs)
+        if lst is not None:                          # ONE python list, refilled in place (`lst[:] = values`)
+            lst[:] = [float(v) for v in cont[0]]
+            args[0] = lst
         if args_same:
             args[pair[1]] = bufs[pair[0]]
         role = ':same-object-both-roles' if args_same else ''
         r = call(args, extra)
+        if lst is not None and lst != [float(v) for v in cont[0]]:
+            return 'R16:argument-modified:' + entry + ':list', 'call %d changed the caller\'s list' % (k + 1)
         why = check([np.array(c, copy=True) for c in cont], extra, r)
         if why:
             stale = any(same_out(r, tuple(cp)) for _, cp, _ in kept)
@@ -986,6 +992,9 @@ def history_cases(rng, quick):
                     if 'extra' in st and entry != 'gmd':
                         st['extra'] = steps[0]['extra']
             out.append({'entry': entry, 'cplx': cplx, 'dims': dims, 'seed': rng.below(2 ** 31), 'steps': steps})
+    # the one routine that accepts a python list: ONE list refilled in place
+    out.append({'entry': 'linear2dB', 'cplx': False, 'dims': {'m': rng.randint(2, 6), 'k': 0}, 'seed': rng.below(2 ** 31),
+                'steps': [{}, {}, {}], 'container': 'list'})
     return out
 
 
@@ -1005,7 +1014,8 @@ def projection_cases(rng, quick):
 
 ORACLE_BRANCHES = (['oracle-R15:' + k for k in R15_KINDS] +
                    ['oracle-R15:subspaces', 'oracle-R15:gmd-threshold', 'oracle-R15:eigen', 'oracle-R15:singular', 'oracle-R15:conversions',
-                    'oracle-R16:buffer-refilled-in-place', 'oracle-R16:same-object-both-roles', 'oracle-R16:projection-object'] +
+                    'oracle-R16:buffer-refilled-in-place', 'oracle-R16:same-object-both-roles', 'oracle-R16:projection-object',
+                    'oracle-R16:list-refilled-in-place'] +
                    ['oracle-R16:entry:' + e for e in ENTRY_NAMES])
 
 
@@ -1037,6 +1047,8 @@ def oracles(ctx, run_oracle, quick):
         ctx.branch('oracle-R16:entry:' + case['entry'])
         if any(st.get('same') for st in case['steps']):
             ctx.branch('oracle-R16:same-object-both-roles')
+        if case.get('container') == 'list':
+            ctx.branch('oracle-R16:list-refilled-in-place')
     for case in projection_cases(rng, quick):
         run_oracle(ctx, 'R16.projection', case, key=('r16proj', case['m'], case['k'], case['cplx'], case['seed']))
         ctx.branch('oracle-R16:projection-object')
